@@ -4,11 +4,32 @@ import Isotp.PyAgree.Exec2Bridge
   `TransportLayerLogic._process_tx` (isotp/protocol.py) AS A WHOLE, on top of the region theorems of LayerTx.lean.
 
   PART 1  `processTx_decomposed` : the model-side pieces the six region theorems of LayerTx.lean are stated against (`prefixR`, `standbyM`,
-          `State.readTxQueue` / `startTxR`, `State.transmitCf` / `transmitCfR`, `tailM`), composed, ARE `State.processTx` (every state).
-  PART 2  `whole_shape` (+ the definitions above it): the dumped function is `prefix ++ [dispatch] ++ tail`, the branch bodies of `dispatch` are
-          the region blocks, the `while` body contains `before_start ++ [try start_tx except BadGeneratorError: handler]`.  By `rfl`.
-  PART 3  `process_tx_agrees` : the whole function in the SECOND (fuelled) semantics, for every state and every fuel
-          `≥ |tx_queue| + processTxFuel`.
+          `State.readTxQueue` / `startTxR`, `State.transmitCf` / `transmitCfR`, `tailM`), composed (`processTxD`), ARE `State.processTx`,
+          for every state.  No mismatch was found between the pieces and `processTx`.
+  PART 2  `whole_shape`, `dispatch_at`, `tail_at` (+ the definitions above them): the dumped function is `prefix ++ [dispatch] ++ tail`, the
+          branch bodies of `dispatch` are the region blocks (`__standby`, `__transmit_cf`), the `while` body contains
+          `before_start ++ [try start_tx except BadGeneratorError: handler]`.  All by `rfl`: they break when the source changes shape.
+  PART 3  `process_tx_agrees` : the whole function in the SECOND (fuelled) semantics `run2`, for every state `s` and every fuel
+          `≥ |s.txQueue| + 40`: returns the model's report in an environment that represents the model's new state when the model does not
+          set `exc`; raises the model's exception (`AttributeError` / `ValueError` / `AssertionError`) when it does.
+          Ingredients: `exec2B_congr` (a run that never calls the four names added to `txM` is the same with `txM2`), `lift_ok` / `lift_exc`
+          (region theorem -> second semantics, through Exec2Bridge), `exec2B_append`, `execBlock_keeps` (the queue key survives the early
+          `return`s of the prefix), `start_tx_badGen` (the environment at the point where `consume` raises), `loop_agrees` (the
+          `while read_tx_queue` loop = `State.readTxQueue`, by induction on the queue), `dispatch_agrees`.
+
+  Representation: `Rep2 env s` = `Rep env s` of LayerTx.lean + the history key `#tx_queue` (`txqScs s.txQueue`: every queued request with its
+  generator, as scalars).  Primitives: `txM2 s` = `txM s` + `self.tx_queue.empty()`, `self.active_send_request = self.tx_queue.get()`,
+  `self.active_send_request.complete(ok)`, and `__caught__` (the exception object bound by `except BadGeneratorError as e`).
+
+  Hypotheses of `process_tx_agrees`, and why:
+  * `s.exc = none`                       the model's `processTx` stops at its end when `exc` is set, whatever set it;
+  * `hL` (`FcLoc`), `hsd`, `hod`         the attributes of the objects held by a LOCAL or an attribute (`flow_control_frame.flow_status`,
+                                         `self.tx_standby_msg.data`, `output_msg.data`): the interpreter's environment is flat (a dotted path is
+                                         a key), an assignment `x = obj` does not bind `x.attr`; LayerTx's `prefix_agrees`, `standby_agrees`,
+                                         `tail_agrees` take them as hypotheses, so does this theorem (`hod`: about the message the MODEL emits);
+  * `txSeq < 16`, `8 ≤ txDl ≤ 64`, `consumed ≤ size` (active request and queued ones)   the invariants the region theorems need;
+  * `r.instr = false` for queued `r`     see `badGen_pull_lost`: when `consume` raises `BadGeneratorError` the model still records the pull
+                                         event of an instrumented generator, the failing primitive cannot.
 -/
 set_option linter.unusedSimpArgs false
 set_option linter.unusedSectionVars false
@@ -258,6 +279,9 @@ def standbyS : PStmt := .ite isStandbyC Src.TransportLayerLogic_p_process_tx__st
 def dispatchS : PStmt := .ite isIdleC idleB (.cons standbyS .nil)
 
 theorem whole_shape : WHOLE = appendB PRE (.cons dispatchS TAIL) := rfl
+/-- the dispatch is statement 9 of the function, the tail is what follows it -/
+theorem dispatch_at : nth WHOLE 9 = dispatchS := rfl
+theorem tail_at : Tx.drop WHOLE 10 = TAIL := rfl
 theorem lenB_PRE : lenB PRE = 9 := rfl
 
 /-! ## PART 3. the whole function in the second semantics -/
@@ -742,26 +766,30 @@ theorem pres_prefixR (s : State) : PresOut s (prefixR s) := by
       simp only
       exact PresOut.trans (Pres.trans (Pres.trans h1 hf) (pres_timeoutM s2)) (pres_deplM _)
 
-/-- queue and exception flag untouched -/
-def SameQ (s s' : State) : Prop := s'.txQueue = s.txQueue ∧ s'.exc = s.exc
+/-- queue and exception flag untouched, same primitives (`SameK`) -/
+structure SameQ (s s' : State) : Prop where
+  txQueue : s'.txQueue = s.txQueue
+  exc : s'.exc = s.exc
+  k : SameK s s'
 
-theorem SameQ.refl (s : State) : SameQ s s := ⟨rfl, rfl⟩
-theorem SameQ.trans {a b c : State} (h1 : SameQ a b) (h2 : SameQ b c) : SameQ a c := ⟨h2.1.trans h1.1, h2.2.trans h1.2⟩
+theorem SameQ.refl (s : State) : SameQ s s := ⟨rfl, rfl, SameK.refl s⟩
+theorem SameQ.trans {a b c : State} (h1 : SameQ a b) (h2 : SameQ b c) : SameQ a c :=
+  ⟨h2.txQueue.trans h1.txQueue, h2.exc.trans h1.exc, h1.k.trans h2.k⟩
 
-theorem sameQ_error (s : State) (e : Err) : SameQ s (s.error e) := ⟨rfl, rfl⟩
+theorem sameQ_error (s : State) (e : Err) : SameQ s (s.error e) := ⟨rfl, rfl, ⟨rfl, rfl, rfl, rfl⟩⟩
 theorem sameQ_stopSending (s : State) (ok : Bool) : SameQ s (s.stopSending ok) := by
-  unfold State.stopSending; cases s.active <;> exact ⟨rfl, rfl⟩
+  unfold State.stopSending; cases s.active <;> exact ⟨rfl, rfl, ⟨rfl, rfl, rfl, rfl⟩⟩
 theorem sameQ_consumeActive (s : State) (r : Req) (n : Nat) (e : Bool) : SameQ s (s.consumeActive r n e).1 := by
   unfold State.consumeActive
   simp only
-  split <;> exact ⟨rfl, rfl⟩
+  split <;> exact ⟨rfl, rfl, ⟨rfl, rfl, rfl, rfl⟩⟩
 
 theorem sameQ_standbyM (s : State) (allowed : Nat) : SameQ s (standbyM s allowed).1 := by
   unfold standbyM
   repeat' (first | split | dsimp only)
   all_goals first
-    | exact ⟨rfl, rfl⟩
-    | exact SameQ.trans (b := { s with standby := none }) ⟨rfl, rfl⟩ (sameQ_stopSending _ _)
+    | exact ⟨rfl, rfl, ⟨rfl, rfl, rfl, rfl⟩⟩
+    | exact SameQ.trans (b := { s with standby := none }) ⟨rfl, rfl, ⟨rfl, rfl, rfl, rfl⟩⟩ (sameQ_stopSending _ _)
 
 theorem sameQ_tcfFrame {s s2 : State} {p : Bytes} {out : Option CanMsg} (h : tcfFrame s p = some (s2, out)) : SameQ s s2 := by
   unfold tcfFrame at h
@@ -770,16 +798,16 @@ theorem sameQ_tcfFrame {s s2 : State} {p : Bytes} {out : Option CanMsg} (h : tcf
     · cases h
     · simp only [Option.some.injEq, Prod.mk.injEq] at h
       obtain ⟨rfl, -⟩ := h
-      exact ⟨rfl, rfl⟩
+      exact ⟨rfl, rfl, ⟨rfl, rfl, rfl, rfl⟩⟩
   · simp only [Option.some.injEq, Prod.mk.injEq] at h
     obtain ⟨rfl, -⟩ := h
-    exact ⟨rfl, rfl⟩
+    exact ⟨rfl, rfl, ⟨rfl, rfl, rfl, rfl⟩⟩
 
 theorem sameQ_tcfTail (s : State) (r' : Req) (rbs : Nat) : SameQ s (tcfTail s r' rbs).1 := by
   unfold tcfTail
   repeat' (first | split | dsimp only)
   all_goals first
-    | exact ⟨rfl, rfl⟩
+    | exact ⟨rfl, rfl, ⟨rfl, rfl, rfl, rfl⟩⟩
     | exact sameQ_stopSending _ _
     | exact (sameQ_error _ _).trans (sameQ_stopSending _ _)
 
@@ -831,7 +859,7 @@ theorem sameQ_startTxR (s : State) (r : Req) (allowed : Nat) : SameQOut s (start
       repeat' (first | split | dsimp only)
       all_goals first
         | trivial
-        | exact hc'.trans ⟨rfl, rfl⟩
+        | exact hc'.trans ⟨rfl, rfl, ⟨rfl, rfl, rfl, rfl⟩⟩
         | exact hc'.trans (sameQ_stopSending _ _)
   · simp only [hsf, if_false]
     have hc := sameQ_consumeActive ({ s with txFrameLen := r.size } : State) r
@@ -839,7 +867,7 @@ theorem sameQ_startTxR (s : State) (r : Req) (allowed : Nat) : SameQOut s (start
     generalize ({ s with txFrameLen := r.size } : State).consumeActive r
       (if r.size ≤ 0xFFF then s.cfg.txDl - 2 - s.txPrefixLen else s.cfg.txDl - 6 - s.txPrefixLen) true = t at hc ⊢
     obtain ⟨s1, r', res⟩ := t
-    have hc' : SameQ s s1 := hc
+    have hc' : SameQ s s1 := SameQ.trans (b := { s with txFrameLen := r.size }) ⟨rfl, rfl, ⟨rfl, rfl, rfl, rfl⟩⟩ hc
     cases res with
     | none => exact hc'
     | some payload =>
@@ -847,7 +875,7 @@ theorem sameQ_startTxR (s : State) (r : Req) (allowed : Nat) : SameQOut s (start
       repeat' (first | split | dsimp only)
       all_goals first
         | trivial
-        | exact hc'.trans ⟨rfl, rfl⟩
+        | exact hc'.trans ⟨rfl, rfl, ⟨rfl, rfl, rfl, rfl⟩⟩
 
 /-- `State.readTxQueue`, with the way it ends made explicit (`BadGeneratorError` is caught inside the loop) -/
 def readTxQueueR (s : State) (allowed : Nat) : List Req → Outcome
@@ -1300,7 +1328,7 @@ theorem start_tx_badGen (s : State) (env : Env) (r : Req) (allowed : Nat) (n : N
         exact e2_cons_raised he4
       rw [e2_cons_raised hite]
       refine ⟨env4, { s with txFrameLen := r.size },
-        (if r.size ≤ 4095 then s.cfg.txDl - 2 - s.txPrefixLen else s.cfg.txDl - 6 - s.txPrefixLen), rfl, R4, ha, ⟨rfl, rfl, rfl, rfl⟩, ⟨rfl, rfl⟩, ?_, ?_⟩
+        (if r.size ≤ 4095 then s.cfg.txDl - 2 - s.txPrefixLen else s.cfg.txDl - 6 - s.txPrefixLen), rfl, R4, ha, ⟨rfl, rfl, rfl, rfl⟩, ⟨rfl, rfl, ⟨rfl, rfl, rfl, rfl⟩⟩, ?_, ?_⟩
       · exact ((hF1.mono (by simp)).trans (hF3.mono (by simp))).trans (hF4.mono (by simp))
       · rw [hca]
 
@@ -1400,7 +1428,7 @@ theorem startB_agrees (s : State) (env : Env) (r : Req) (allowed n : Nat) (hR : 
     obtain ⟨env5, he5, R5, ho5, hF5⟩ := hst
     rw [lift_ok (n := m + 15) lift_ST (by rw [depth_ST]; omega) he5]
     have hF : Frame startLocals env env5 := (hF4.mono (by simp [startLocals])).trans (hF5.mono stLocals_sub)
-    exact ⟨env5, rfl, hR.of_frame R5 hF (by decide) hsq.1, ho5, hF⟩
+    exact ⟨env5, rfl, hR.of_frame R5 hF (by decide) hsq.txQueue, ho5, hF⟩
   | badGen s1 =>
     rw [hr] at hsq
     simp only
@@ -1416,7 +1444,7 @@ theorem startB_agrees (s : State) (env : Env) (r : Req) (allowed n : Nat) (hR : 
       ((hF4.mono (by simp [startLocals])).trans (hF1.mono badGenLocals_sub)).trans (hF'.mono (by simp [startLocals]))
     refine ⟨env', rfl, ?_, ?_, hF⟩
     · rw [hs1, badGen_fin s0 r k ha0 hni]
-      exact hR.of_frame R' hF (by decide) (((sameQ_error _ _).trans (sameQ_stopSending _ _)).1.trans hQ0.1)
+      exact hR.of_frame R' hF (by decide) (((sameQ_error _ _).trans (sameQ_stopSending _ _)).txQueue.trans hQ0.txQueue)
     · rw [hF' _ (by decide) (by decide), hF1 _ (by decide) (by decide)]; exact ho4
 
 
@@ -1617,4 +1645,377 @@ theorem loop_agrees (allowed : Nat) : ∀ (q : List Req) (s : State) (env : Env)
         exact e2_while_false (eval_rtq (by rw [h4 _ (by decide) (by decide)]; exact hrtq2))
 
 
+/-! ## 3k. the dispatch on `tx_state` -/
+
+theorem eval_isIdle {M : Meths} {env : Env} {s : State} (hR : Rep env s) :
+    eval M env isIdleC = .ok (pbool (decide (s.txState = .idle))) := by
+  simp [isIdleC, eval, hR.txState, hR.consts.idle, pvEq_txSt]
+theorem eval_isWaitFc {M : Meths} {env : Env} {s : State} (hR : Rep env s) :
+    eval M env isWaitFcC = .ok (pbool (decide (s.txState = .waitFc))) := by
+  simp [isWaitFcC, eval, hR.txState, hR.consts.waitFc, pvEq_txSt]
+theorem eval_isTcf {M : Meths} {env : Env} {s : State} (hR : Rep env s) :
+    eval M env isTcfC = .ok (pbool (decide (s.txState = .transmitCf))) := by
+  simp [isTcfC, eval, hR.txState, hR.consts.transmitCf, pvEq_txSt]
+theorem eval_isStandby {M : Meths} {env : Env} {s : State} (hR : Rep env s) :
+    eval M env isStandbyC = .ok (pbool (decide (s.txState = .sfStandby ∨ s.txState = .ffStandby))) := by
+  have hts := hR.txState
+  cases hs : s.txState <;> rw [hs] at hts <;>
+    simp [isStandbyC, eval, evalArgs, hts, hR.consts.sfStandby, hR.consts.ffStandby, txStPV, txStName]
+
+
+/-- a region that falls through leaves the exception flag and the primitives as they were -/
+def OutK (s : State) : Outcome → Prop
+  | .done s' _ _ => s'.exc = s.exc ∧ SameK s s'
+  | _ => True
+
+theorem readTxQueueR_same (allowed : Nat) : ∀ (q : List Req) (s : State), OutK s (readTxQueueR s allowed q)
+  | [], s => ⟨rfl, rfl, rfl, rfl, rfl⟩
+  | r :: rest, s => by
+    unfold readTxQueueR
+    split
+    · have ih := readTxQueueR_same allowed rest
+        ({ ({ s with txQueue := rest, active := some r } : State).emit (.done r.id true) with active := none })
+      revert ih
+      generalize readTxQueueR _ allowed rest = o
+      intro ih
+      cases o with
+      | raised _ _ => trivial
+      | badGen _ => trivial
+      | done s' _ _ => exact ⟨ih.1, ih.2⟩
+    · have h := sameQ_startTxR { s with txQueue := rest, active := some r } r allowed
+      revert h
+      generalize startTxR _ r allowed = o
+      intro h
+      cases o with
+      | raised _ _ => trivial
+      | badGen s1 =>
+        have h' : SameQ _ s1 := h
+        have h2 := h'.trans ((sameQ_error s1 .BadGenerator).trans (sameQ_stopSending _ false))
+        exact ⟨h2.exc, h2.k⟩
+      | done s' _ _ =>
+        have h' : SameQ _ s' := h
+        exact ⟨h'.exc, h'.k⟩
+
+/-- the locals the dispatch writes (and the queue key) -/
+def dispLocals : List String := loopLocals ++ tcfLocals
+
+theorem loopLocals_sub : ∀ k ∈ loopLocals, k ∈ dispLocals := by intro k hk; simp [dispLocals, hk]
+theorem tcfLocals_sub : ∀ k ∈ tcfLocals, k ∈ dispLocals := by intro k hk; simp [dispLocals, hk]
+
+/-- **the dispatch** `if self.tx_state == IDLE: <loop> elif <standby> ... elif WAIT_FC: pass elif TRANSMIT_CF: ...` computes `dispatchM`;
+    it raises exactly when the model sets `exc` -/
+theorem dispatch_agrees (s : State) (env : Env) (allowed n : Nat) (hR : Rep2 env s) (hexc : s.exc = none)
+    (hal : env "allowed_bytes" = some (pint allowed)) (ho : env "output_msg" = some pnone)
+    (hi : env "immediate_rx_msg_required" = some (pbool false))
+    (hsd : ∀ m, s.standby = some m → env "self.tx_standby_msg.data" = some (.bytes m.data))
+    (hseq : s.txSeq < 16) (hdl : 8 ≤ s.cfg.txDl ∧ s.cfg.txDl ≤ 64)
+    (hinv : ∀ r, s.active = some r → r.consumed ≤ r.size)
+    (hq : ∀ r ∈ s.txQueue, r.consumed ≤ r.size ∧ r.instr = false)
+    (hn : s.txQueue.length + 30 ≤ n) :
+    match (dispatchM s allowed).1.exc with
+    | some e => ∃ env', exec2S n (txM2 s) env dispatchS = .ok (.raised e.name env')
+    | none =>
+      ∃ env', exec2S n (txM2 s) env dispatchS = .ok (.next env') ∧ Rep2 env' (dispatchM s allowed).1 ∧
+        env' "output_msg" = some (optMsgPV (dispatchM s allowed).2.1) ∧
+        env' "immediate_rx_msg_required" = some (pbool (dispatchM s allowed).2.2) ∧ Frame dispLocals env env' ∧
+        SameK s (dispatchM s allowed).1 := by
+  obtain ⟨m, rfl⟩ : ∃ m, n = m + 30 := ⟨n - 30, by omega⟩
+  have hm : s.txQueue.length ≤ m := by omega
+  have hidle := eval_isIdle (M := txM2 s) hR.rep
+  unfold dispatchS
+  unfold dispatchM
+  cases hs : s.txState with
+  | idle =>
+    simp only [hs, decide_true] at hidle ⊢
+    rw [e2_ite_true hidle]
+    unfold idleB
+    rw [e2_cons_next (e2_simple_ok rfl (assign_rtq_tt (txM2 s) env)), e2_single]
+    have R1 := hR.setOther (k := "read_tx_queue") (by decide) (by decide) (pbool true)
+    have hl := loop_agrees allowed s.txQueue s (env.set "read_tx_queue" (pbool true)) (m + 27) rfl R1 (by simp [set_get])
+      (by simpa [set_get] using hal) (by simpa [set_get] using ho) hq hdl (by omega)
+    have hx := readTxQueueR_same allowed s.txQueue s
+    rw [readTxQueue_eq]
+    revert hl hx
+    generalize readTxQueueR s allowed s.txQueue = o
+    intro hl hx
+    cases o with
+    | raised s' e => simpa [startFin, State.raise] using hl
+    | badGen s' => exact hl.elim
+    | done s' out imm =>
+      have hx' : s'.exc = s.exc ∧ SameK s s' := hx
+      simp only [startFin, hx'.1, hexc]
+      obtain ⟨env', h1, h2, h3, h4⟩ := hl
+      have hF : Frame loopLocals env env' := ((Frame.refl _ env).set (.inr (by simp [loopLocals])) _).trans h4
+      exact ⟨env', h1, h2, h3, by rw [hF _ (by decide) (by decide)]; exact hi, hF.mono loopLocals_sub, hx'.2⟩
+  | waitFc =>
+    simp only [hs] at hidle ⊢
+    rw [e2_ite_false (by simpa using hidle), e2_single]
+    unfold standbyS
+    have h1 := eval_isStandby (M := txM2 s) hR.rep
+    rw [hs] at h1
+    rw [e2_ite_false (by simpa using h1), e2_single]
+    unfold waitS
+    have h2 := eval_isWaitFc (M := txM2 s) hR.rep
+    rw [hs] at h2
+    rw [e2_ite_true (by simpa using h2)]
+    simp only [hexc]
+    exact ⟨env, rfl, hR, by simpa [optMsgPV] using ho, hi, Frame.refl _ _, SameK.refl _⟩
+  | sfStandby =>
+    simp only [hs] at hidle ⊢
+    rw [e2_ite_false (by simpa using hidle), e2_single]
+    unfold standbyS
+    have h1 := eval_isStandby (M := txM2 s) hR.rep
+    rw [hs] at h1
+    rw [e2_ite_true (by simpa using h1)]
+    obtain ⟨env', he, R', ho', hF⟩ := standby_agrees s env allowed hR.rep hal hsd
+    have hsq := sameQ_standbyM s allowed
+    simp only [hsq.exc, hexc]
+    refine ⟨env', lift_ok lift_STANDBY (by rw [depth_STANDBY]; omega) he, hR.of_frame R' hF (by decide) hsq.txQueue, ?_, ?_,
+      hF.mono (by simp [dispLocals, loopLocals, startLocals, stLocals]), hsq.k⟩
+    · revert ho'
+      cases (standbyM s allowed).2 with
+      | none => intro ho'; rw [ho', ho]; rfl
+      | some m => intro ho'; rw [ho']; rfl
+    · rw [hF _ (by decide) (by decide)]; exact hi
+  | ffStandby =>
+    simp only [hs] at hidle ⊢
+    rw [e2_ite_false (by simpa using hidle), e2_single]
+    unfold standbyS
+    have h1 := eval_isStandby (M := txM2 s) hR.rep
+    rw [hs] at h1
+    rw [e2_ite_true (by simpa using h1)]
+    obtain ⟨env', he, R', ho', hF⟩ := standby_agrees s env allowed hR.rep hal hsd
+    have hsq := sameQ_standbyM s allowed
+    simp only [hsq.exc, hexc]
+    refine ⟨env', lift_ok lift_STANDBY (by rw [depth_STANDBY]; omega) he, hR.of_frame R' hF (by decide) hsq.txQueue, ?_, ?_,
+      hF.mono (by simp [dispLocals, loopLocals, startLocals, stLocals]), hsq.k⟩
+    · revert ho'
+      cases (standbyM s allowed).2 with
+      | none => intro ho'; rw [ho', ho]; rfl
+      | some m => intro ho'; rw [ho']; rfl
+    · rw [hF _ (by decide) (by decide)]; exact hi
+  | transmitCf =>
+    simp only [hs] at hidle ⊢
+    rw [e2_ite_false (by simpa using hidle), e2_single]
+    unfold standbyS
+    have h1 := eval_isStandby (M := txM2 s) hR.rep
+    rw [hs] at h1
+    rw [e2_ite_false (by simpa using h1), e2_single]
+    unfold waitS
+    have h2 := eval_isWaitFc (M := txM2 s) hR.rep
+    rw [hs] at h2
+    rw [e2_ite_false (by simpa using h2), e2_single]
+    unfold tcfS
+    have h3 := eval_isTcf (M := txM2 s) hR.rep
+    rw [hs] at h3
+    rw [e2_ite_true (by simpa using h3)]
+    have hpl : s.txPrefixLen ≤ 1 := txPrefix_len_le _
+    have ht := transmit_cf_agrees s env allowed hR.rep hal ho hi hseq (by omega) hinv
+    have hsq := sameQ_transmitCfR s allowed
+    rw [transmitCf_eq]
+    revert ht hsq
+    generalize transmitCfR s allowed = o
+    intro ht hsq
+    cases o with
+    | raised s' e =>
+      simp only [State.raise]
+      exact lift_exc lift_TCF (by rw [depth_TCF]; omega) ht
+    | badGen s' => exact ht.elim
+    | done s' out imm =>
+      obtain ⟨env', he, R', ho', hi', hF⟩ := ht
+      have hsq' : SameQ s s' := hsq
+      simp only [hsq'.exc, hexc]
+      exact ⟨env', lift_ok lift_TCF (by rw [depth_TCF]; omega) he, hR.of_frame R' hF (by decide) hsq'.txQueue, ho', hi',
+        hF.mono tcfLocals_sub, hsq'.k⟩
+
+
+/-! ## 3l. the whole function -/
+
+/-- the fuel `_process_tx` needs, besides one unit per queued request -/
+def processTxFuel : Nat := 40
+
+theorem finishM_fst_exc (r : State × Option CanMsg × Bool) : (finishM r).1.exc = r.1.exc := by
+  unfold finishM tailM
+  split
+  · rfl
+  · cases r.2.1 <;> rfl
+
+theorem txM2_eq {s s' : State} (h : SameK s s') : txM2 s' = txM2 s := by
+  unfold txM2; rw [h.1, h.2.1, h.2.2.1, h.2.2.2]
+
+/-- **`_process_tx`, the whole function, second semantics**: for every state `s` the environment represents (`Rep2`: the attributes of
+    LayerTx's `Rep` and the queue), with no exception pending, and every fuel `≥ |tx_queue| + 40`:
+    * when the model's `processTx` does not set `exc`, the run returns `ProcessTxReport(msg, immediate_rx_required)` with the model's
+      message and flag, in an environment that represents the model's new state;
+    * when it does (`AttributeError`, `ValueError`, `AssertionError`), the run raises that exception. -/
+theorem process_tx_agrees (s : State) (env : Env) (n : Nat)
+    (hR : Rep2 env s) (hexc : s.exc = none)
+    (hL : ∀ f, s.lastFc = some f → FcLoc env f)
+    (hsd : ∀ m, s.standby = some m → env "self.tx_standby_msg.data" = some (.bytes m.data))
+    (hod : ∀ m, s.processTx.2.1 = some m → env "output_msg.data" = some (.bytes m.data))
+    (hseq : s.txSeq < 16) (hdl : 8 ≤ s.cfg.txDl ∧ s.cfg.txDl ≤ 64)
+    (hinv : ∀ r, s.active = some r → r.consumed ≤ r.size)
+    (hq : ∀ r ∈ s.txQueue, r.consumed ≤ r.size ∧ r.instr = false)
+    (hn : s.txQueue.length + processTxFuel ≤ n) :
+    match s.processTx.1.exc with
+    | none =>
+      ∃ env', run2 n (txM2 s) env WHOLE = .ok (.ret (reportPV s.processTx.2.1 s.processTx.2.2) env') ∧ Rep2 env' s.processTx.1
+    | some e => ∃ env', run2 n (txM2 s) env WHOLE = .ok (.raised e.name env') := by
+  rw [processTx_decomposed] at hod ⊢
+  unfold processTxD at hod ⊢
+  obtain ⟨m, rfl⟩ : ∃ m, n = m + 40 := ⟨n - 40, by unfold processTxFuel at hn; omega⟩
+  have hm : s.txQueue.length ≤ m := by unfold processTxFuel at hn; omega
+  have hpre := prefix_agrees s env hR.rep hL
+  have hpres := pres_prefixR s
+  unfold run2
+  rw [whole_shape]
+  cases hp : prefixR s with
+  | raised s' e =>
+    rw [hp] at hpre
+    simp only [prefixFin, State.raise] at hpre ⊢
+    obtain ⟨env1, h1⟩ := lift_exc (n := 25) lift_PRE (by rw [depth_PRE]; exact Nat.le_refl _) hpre
+    have h2 : exec2B (m + 40) (txM2 s) env (appendB PRE (.cons dispatchS TAIL)) = .ok (.raised e.name env1) :=
+      exec2B_append (txM2 s) PRE (.cons dispatchS TAIL) 25 (m + 31) env _ h1 (by omega)
+    rw [h2]
+    exact ⟨env1, rfl⟩
+  | ret s' out imm =>
+    rw [hp] at hpre hpres
+    have hP : Pres s s' := hpres
+    simp only [prefixFin, hP.exc, hexc] at hpre ⊢
+    obtain ⟨env', he, R', hK⟩ := hpre
+    have h1 := lift_ok (n := 25) lift_PRE (by rw [depth_PRE]; exact Nat.le_refl _) he
+    have h2 : exec2B (m + 40) (txM2 s) env (appendB PRE (.cons dispatchS TAIL)) = .ok (.ret (reportPV out imm) env') :=
+      exec2B_append (txM2 s) PRE (.cons dispatchS TAIL) 25 (m + 31) env _ h1 (by omega)
+    rw [h2]
+    have hq' : env' "#tx_queue" = env "#tx_queue" := PRE_keeps_q he
+    exact ⟨env', rfl, R', by rw [hq', hP.txQueue]; exact hR.q⟩
+  | next s3 =>
+    rw [hp] at hpre hpres hod
+    have hP : Pres s s3 := hpres
+    simp only [prefixFin] at hpre hod ⊢
+    obtain ⟨env3, he, R3', ho3, hal3, hi3, hK, hF3⟩ := hpre
+    have R3 : Rep2 env3 s3 := hR.of_frame R3' hF3 (by decide) hP.txQueue
+    have h1 := lift_ok (n := 25) lift_PRE (by rw [depth_PRE]; exact Nat.le_refl _) he
+    have h2 : exec2B (m + 40) (txM2 s) env (appendB PRE (.cons dispatchS TAIL)) =
+        exec2B (m + 31) (txM2 s) env3 (.cons dispatchS TAIL) :=
+      exec2B_append (txM2 s) PRE (.cons dispatchS TAIL) 25 (m + 31) env _ h1 (by omega)
+    rw [h2]
+    have hM : txM2 s3 = txM2 s := txM2_eq hK
+    have hsd3 : ∀ m, s3.standby = some m → env3 "self.tx_standby_msg.data" = some (.bytes m.data) := by
+      intro m hm3
+      rw [hF3 _ (by decide) (by decide)]
+      rcases hP.standby with h | h
+      · exact hsd m (by rw [← h]; exact hm3)
+      · rw [h] at hm3; cases hm3
+    have hseq3 : s3.txSeq < 16 := by rcases hP.txSeq with h | h <;> rw [h] <;> first | exact hseq | decide
+    have hinv3 : ∀ r, s3.active = some r → r.consumed ≤ r.size := by
+      intro r hr
+      rcases hP.active with h | h
+      · exact hinv r (by rw [← h]; exact hr)
+      · rw [h] at hr; cases hr
+    have hd := dispatch_agrees s3 env3 (s.rl.allowedBytes s.cfg.rlBitMax) (m + 30) R3 (hP.exc.trans hexc) hal3 ho3 hi3 hsd3 hseq3
+      (by rw [hK.1]; exact hdl) hinv3 (by rw [hP.txQueue]; exact hq) (by rw [hP.txQueue]; omega)
+    rw [hM] at hd
+    rw [finishM_fst_exc]
+    revert hd hod
+    generalize hdm : dispatchM s3 (s.rl.allowedBytes s.cfg.rlBitMax) = d
+    obtain ⟨s4, out, imm⟩ := d
+    intro hod hd
+    try simp only at hd
+    cases hx : s4.exc with
+    | some e =>
+      rw [hx] at hd
+      simp only at hd ⊢
+      obtain ⟨env', h3⟩ := hd
+      rw [e2_cons_raised h3]
+      exact ⟨env', rfl⟩
+    | none =>
+      rw [hx] at hd
+      simp only at hd ⊢
+      obtain ⟨env4, h3, R4, ho4, hi4, hF4, hK4⟩ := hd
+      rw [e2_cons_next h3]
+      have hfin : finishM (s4, out, imm) = tailM s4 out imm := by
+        unfold finishM
+        simp [hx]
+      rw [hfin] at hod ⊢
+      have hod4 : ∀ m, out = some m → env4 "output_msg.data" = some (.bytes m.data) := by
+        intro m hm4
+        rw [hF4 _ (by decide) (by decide), hF3 _ (by decide) (by decide)]
+        apply hod m
+        rw [hm4]; rfl
+      obtain ⟨env5, he5, R5, h25, hF5⟩ := tail_agrees s4 env4 out imm R4.rep ho4 hi4 hod4
+      rw [txM_eq hK4.1 hK4.2.1 hK4.2.2.1 hK4.2.2.2, txM_eq hK.1 hK.2.1 hK.2.2.1 hK.2.2.2] at he5
+      rw [lift_ok (n := m + 30) lift_TAIL (by rw [depth_TAIL]; omega) he5]
+      have e1 : (tailM s4 out imm).2.1 = out := by rw [h25]
+      have e2 : (tailM s4 out imm).2.2 = imm := by rw [h25]
+      rw [e1, e2]
+      refine ⟨env5, rfl, R5, ?_⟩
+      rw [hF5 _ (by decide) (by simp), R4.q]
+      cases out <;> rfl
+
+
+/-! ## 3m. non-vacuity, and a finding -/
+
+/-- a state with one queued request whose payload is empty (it is completed with success and skipped by the loop) -/
+def exState : State := { cfg := {}, addr := default, txQueue := [{ id := 7, size := 0, src := [] }] }
+
+def exEnv : Env := envOf (txAttrs exState ++
+  [("PDU.FlowStatus.ContinueToSend", pint 0), ("PDU.FlowStatus.Wait", pint 1), ("PDU.FlowStatus.Overflow", pint 2),
+   ("self.TxState.IDLE", txStPV .idle), ("self.TxState.WAIT_FC", txStPV .waitFc), ("self.TxState.TRANSMIT_CF", txStPV .transmitCf),
+   ("self.TxState.TRANSMIT_SF_STANDBY", txStPV .sfStandby), ("self.TxState.TRANSMIT_FF_STANDBY", txStPV .ffStandby),
+   ("#tx_queue", .list (txqScs exState.txQueue))])
+
+theorem exEnv_rep : Rep2 exEnv exState := by
+  refine ⟨?_, rfl⟩
+  constructor
+  case req => intro r h; cases h
+  case consts => exact ⟨rfl, rfl, rfl, rfl, rfl, rfl, rfl, rfl⟩
+  all_goals rfl
+
+/-- the hypotheses of `process_tx_agrees` are satisfiable; the run needs `1 + 40` units of fuel here -/
+example : ∃ env', run2 41 (txM2 exState) exEnv WHOLE = .ok (.ret (reportPV none false) env') ∧ Rep2 env' exState.processTx.1 := by
+  have h := process_tx_agrees exState exEnv 41 exEnv_rep rfl (by intro f hf; cases hf) (by intro m hm; cases hm)
+    (by intro m hm; have hn : exState.processTx.2.1 = none := by decide
+        rw [hn] at hm; cases hm) (by decide) (by decide) (by intro r hr; cases hr)
+    (by intro r hr; simp [exState] at hr; subst hr; exact ⟨Nat.le_refl _, rfl⟩) (by decide)
+  have he : exState.processTx.1.exc = none := by decide
+  have ho : exState.processTx.2.1 = none := by decide
+  have hi : exState.processTx.2.2 = false := by decide
+  rw [he, ho, hi] at h
+  exact h
+
+
+/-- FINDING (why `process_tx_agrees` asks for non-instrumented generators, `r.instr = false`): when `consume` raises
+    `BadGeneratorError`, the model (`State.consumeActive`) still records the pull event of an instrumented generator, but a primitive of
+    `Meths` that fails has no environment to record anything in (`consumeP` returns `.error`), so the handler runs in the environment of
+    the state BEFORE the failed `consume`.  The two final states differ (by the pull event in the history) for an instrumented request: -/
+theorem badGen_pull_lost :
+    ∃ (s0 : State) (r : Req) (k : Nat), s0.active = some r ∧ r.instr = true ∧ (r.consume k true).2 = none ∧
+      ∀ env', Rep env' ((s0.error .BadGenerator).stopSending false) →
+        ¬ Rep env' (((s0.consumeActive r k true).1.error .BadGenerator).stopSending false) := by
+  refine ⟨{ cfg := {}, addr := default, active := some { id := 1, size := 5, src := [1, 2], instr := true } },
+    { id := 1, size := 5, src := [1, 2], instr := true }, 5, rfl, rfl, by decide, ?_⟩
+  intro env' h1 h2
+  have e1 := h1.log
+  have e2 := h2.log
+  rw [e1] at e2
+  revert e2
+  decide
+
+
 end Isotp.PyAgree
+
+#print axioms Isotp.PyAgree.processTx_decomposed
+#print axioms Isotp.PyAgree.whole_shape
+#print axioms Isotp.PyAgree.dispatch_at
+#print axioms Isotp.PyAgree.tail_at
+#print axioms Isotp.PyAgree.exec2B_congr
+#print axioms Isotp.PyAgree.exec2B_append
+#print axioms Isotp.PyAgree.execBlock_keeps
+#print axioms Isotp.PyAgree.readTxQueue_eq
+#print axioms Isotp.PyAgree.start_tx_badGen
+#print axioms Isotp.PyAgree.startB_agrees
+#print axioms Isotp.PyAgree.loop_agrees
+#print axioms Isotp.PyAgree.dispatch_agrees
+#print axioms Isotp.PyAgree.process_tx_agrees
+#print axioms Isotp.PyAgree.badGen_pull_lost
